@@ -50,6 +50,18 @@ CHECKS.update({
    technique="Lean 4 theorems over models of the preprocessor helpers + correspondence + regeneration of the bundled file",
    ref="DESIGN.md section 4, C20"),
 })
+CHECKS.update({
+ "C13": dict(
+   text="Proof: the REGENERATED callback/token/flag/get_meta tables have exactly the expected content (decide; they break when the Python changes), the six boolean attributes are history-free for every reachable state, metaAfter prior tree = render(attrsOfTree tree) for ALL trees whenever no earlier part wrote an explicit predicate (meta_of_tree_partial); the full statement is refuted (known finding: class-level preds_written) and proved for the repaired reset. Tie: translator (Python ast -> Gen/CallbacksGen.lean) + correspondence: real get_meta() under random compilation histories (compile_c_stmt bodies, transform_insn on corpus parts and generated programs, failing compilations interleaved, two instances) vs the Lean model on the exported Lark tree and vs the specification.",
+   note=TB + "specification attrsOfTree (attributes implied by the Lark tree); the translator's reading of the Python AST.",
+   technique="Lean 4 theorems over tables regenerated from the source + correspondence under histories",
+   ref="DESIGN.md section 4, C13"),
+ "C14": dict(
+   text="Proof: regenerated facts about reset()/ILOpsHolder.clear()/entry points (state_fields_covered: every mutable field is reset, configuration, the renaming-equivariant counter or the listed leak), reset leaves a clean state, every behaviour compiled through transform_insn starts from a clean state for ALL histories (insn_history_free), partial history-freedom for compile_c_stmt, the refuted full statement with kernel-checked witnesses (known findings), full history-freedom of the repaired machine. Tie: translator + correspondence: random and directed histories over the three entry points on 1-2 Compiler instances with failing inputs interleaved; the probe call's normalised output and attributes are compared with those of a fresh Compiler in a pristine forked process (the property itself) and with the Session model's prediction.",
+   note=TB + "Session model abstracts the per-behaviour lowering; state inside lark is not modelled; normalisation = comment lines dropped, h_tmpN renamed.",
+   technique="Lean 4 state-machine theorems over regenerated reset tables + history correspondence against pristine processes",
+   ref="DESIGN.md section 4, C14"),
+})
 NOT_YET = {}
 ALL = [f"C{i:02d}" for i in range(1, 21)]
 def main():
